@@ -191,6 +191,22 @@ def run_cast_case(case, ctx):
             elif op == "dtype_request":
                 check_terms(ctx, facts, case, numpoly.polynomial(a, dtype=T), {(0,): cast(a, T)}, T,
                             "polynomial(data, dtype=T)")
+                complex_to_real = numpy.dtype(S).kind == "c" and numpy.dtype(T).kind != "c"
+                if a.ndim and not complex_to_real:
+                    # the same request with the data spelled as (nested) lists / tuples (numpy itself
+                    # refuses to build a real array from a list of Python complex numbers) ...
+                    listed = numpy.array(a.tolist())
+                    check_terms(ctx, facts, case, numpoly.polynomial(a.tolist(), dtype=T),
+                                {(0,): cast(listed, T)}, T, "polynomial(nested list, dtype=T)")
+                    check_terms(ctx, facts, case, numpoly.aspolynomial(tuple(a.tolist()), dtype=T),
+                                {(0,): cast(listed, T)}, T, "aspolynomial(tuple of lists, dtype=T)")
+                    # ... and as a list of polynomial arrays
+                    src = two_term(a)
+                    stacked = numpy.stack([a, a])
+                    check_terms(ctx, facts, case, numpoly.polynomial([src, src], dtype=T),
+                                {(0,): cast(stacked, T), (1,): cast(stacked, T)}, T,
+                                "polynomial([poly, poly], dtype=T)")
+                    ctx.count("dtype_request_lists")
             elif op == "aspolynomial":
                 check_terms(ctx, facts, case, numpoly.aspolynomial(a, dtype=T), {(0,): cast(a, T)},
                             T, "aspolynomial(data, dtype=T)")
